@@ -186,3 +186,6 @@ Fixpoint mask_select {A} (mask : list bool) (l : list A) : list A :=
   | _, _ => []
   end.
 Definition vabs (a : list Q) : list Q := map Qabs a.
+(* a.clip(lo, hi) = minimum(maximum(a, lo), hi) *)
+Definition vclip (lo hi : Q) (a : list Q) : list Q :=
+  map (fun x => let m := if Qltb x lo then lo else x in if Qltb hi m then hi else m) a.
